@@ -10,6 +10,8 @@ import (
 
 func init() {
 	register("C11", func(c *core.Ctx, tier string) {
+		truncatedBodyRefused(c, "C11.13")
+		requestRevalidatesTransport(c, "C11.14")
 		payloadNotTruncated(c, "C11.12") // "ok" only after all packets of the payload were processed: none silently dropped by the decoder
 		corsAndContextEffects(c, "C11.11")
 		pollingEffects(c, "C11.10")
@@ -359,16 +361,26 @@ func c11ReleaseAtClose(c *core.Ctx, R string) {
 	}
 	if oc := c.Fn(R, "transports.(*polling).OnClose"); oc != nil {
 		g := oc.Graph()
-		var noop, base *core.Call
+		var noop, late, base *core.Call
 		for _, cl := range oc.Calls() {
-			if cl.Key == "transports.(*polling).Send" && g.GuardedBy(cl.Loc, writableTrue()) {
-				noop = cl
-			}
 			if cl.Key == "transports.(Transport).OnClose" {
 				base = cl
 			}
 		}
+		for _, cl := range oc.Calls() {
+			if cl.Key == "transports.(*polling).Send" && g.GuardedBy(cl.Loc, writableTrue()) {
+				if base != nil && g.Dominates(base.Loc, cl.Loc) {
+					late = cl // the re-check after the state change (fix 46aa1a3)
+				} else {
+					noop = cl
+				}
+			}
+		}
 		ok := noop != nil && base != nil && g.CanFollow(noop.Loc, base.Loc)
+		// store-then-check on both sides: a poll that is installed between the writable test above and the state change
+		// is released by a second writable test made after the transport became closed (onPollRequest does the mirror
+		// test after installing itself)
+		c.Check(R, "transports.(*polling).OnClose/re-check-writable-after-close", oc.Pos(), late != nil, "a poll installed while the transport was closing is released as well")
 		if ok {
 			for _, r := range returnsIn(oc) {
 				ok = ok && g.Dominates(base.Loc, r.Loc)
